@@ -108,10 +108,13 @@ type Exec struct {
 	inInit    int
 	lenientFn *ssa.Function
 	hashes    map[string][]hashFact
+	beMemo    map[string]Term
+	divMemo   map[string][2]Term
 	constAtoms map[string]int64
 
 	// statistics
 	Paths, Instrs   int
+	Merged          int
 	Reached         map[string]int
 	Violations      []Violation
 	violCount       map[string]int
@@ -219,6 +222,8 @@ func (ex *Exec) runOnce(fn *ssa.Function) {
 	ex.globals = map[*ssa.Global]*Obj{}
 	ex.symIfs = map[ssa.Instruction]int{}
 	ex.hashes = map[string][]hashFact{}
+	ex.beMemo = map[string]Term{}
+	ex.divMemo = map[string][2]Term{}
 	ex.objSeq = 0
 	ex.auxSeq = 0
 	ex.depth = 0
@@ -662,6 +667,16 @@ func (ex *Exec) call(fn *ssa.Function, args []Value, bind []Value) Value {
 						panic(pathEnd{"unwind"})
 					}
 				}
+				if !c.T.Const && ex.lenientFn == nil && os.Getenv("VERIF_NOMERGE") == "" {
+					if join, retv, isRet, ok := ex.ifConvert(fr, blk, c.T); ok {
+						if isRet {
+							return retv
+						}
+						next = join
+						blk = nil // phis of the join are already bound
+						break
+					}
+				}
 				if ex.decide(c.T) {
 					next = blk.Succs[0]
 				} else {
@@ -707,6 +722,182 @@ func (ex *Exec) call(fn *ssa.Function, args []Value, bind []Value) Value {
 		}
 		prev, blk = blk, next
 	}
+}
+
+// ifConvert: if-conversion of small pure diamonds/triangles and of two-way pure returns. Instead of forking the
+// path on a symbolic condition, both arms (straight-line integer/boolean arithmetic without side effects) are
+// evaluated and the results merged with ite. Returns the join block (phis bound) or the merged return value.
+func (ex *Exec) ifConvert(fr *frame, ifBlk *ssa.BasicBlock, c Term) (join *ssa.BasicBlock, retv Value, isRet, ok bool) {
+	defer func() {
+		if r := recover(); r != nil {
+			ok = false
+		}
+	}()
+	tb, eb := ifBlk.Succs[0], ifBlk.Succs[1]
+	type arm struct {
+		blk  *ssa.BasicBlock // nil when the edge goes straight to the join
+		term ssa.Instruction
+	}
+	evalArm := func(b *ssa.BasicBlock) (ssa.Instruction, bool) {
+		if len(b.Preds) != 1 {
+			return nil, false
+		}
+		if len(b.Instrs) > 12 {
+			return nil, false
+		}
+		for _, in := range b.Instrs {
+			switch x := in.(type) {
+			case *ssa.DebugRef:
+			case *ssa.BinOp:
+				switch x.Op {
+				case token.QUO, token.REM, token.SHL, token.SHR:
+					return nil, false
+				}
+				l, r := ex.val(fr, x.X), ex.val(fr, x.Y)
+				if !isScalar(l) || !isScalar(r) {
+					return nil, false
+				}
+				fr.env[x] = ex.binop(x.Op, l, r, x.X.Type(), x.Type())
+			case *ssa.UnOp:
+				if x.Op != token.NOT && x.Op != token.SUB {
+					return nil, false
+				}
+				if !isScalar(ex.val(fr, x.X)) {
+					return nil, false
+				}
+				fr.env[x] = ex.evalInstr(fr, x)
+			case *ssa.Convert:
+				if !isScalar(ex.val(fr, x.X)) || basicOf(x.Type()) == nil || basicOf(x.Type()).Info()&types.IsInteger == 0 {
+					return nil, false
+				}
+				fr.env[x] = ex.evalInstr(fr, x)
+			case *ssa.ChangeType:
+				fr.env[x] = ex.val(fr, x.X)
+			case *ssa.Jump, *ssa.Return:
+				return in, true
+			default:
+				return nil, false
+			}
+		}
+		return nil, false
+	}
+	merge := func(a, b Value) (Value, bool) {
+		switch x := a.(type) {
+		case VInt:
+			if y, ok := b.(VInt); ok {
+				return VInt{ex.nameT(Ite(c, x.T, y.T))}, true
+			}
+		case VBool:
+			if y, ok := b.(VBool); ok {
+				return VBool{ex.nameT(Ite(c, x.T, y.T))}, true
+			}
+		}
+		return nil, false
+	}
+	// shape 1: both arms return
+	// shape 2: diamond / triangle into a common join
+	var tTerm, eTerm ssa.Instruction
+	tDirect, eDirect := false, false
+	// triangle detection: one successor is the join of the other
+	if t, okT := evalArm(tb); okT {
+		tTerm = t
+	} else {
+		tDirect = true
+	}
+	if e, okE := evalArm(eb); okE {
+		eTerm = e
+	} else {
+		eDirect = true
+	}
+	if tDirect && eDirect {
+		return nil, nil, false, false
+	}
+	tRet, tIsRet := tTerm.(*ssa.Return)
+	eRet, eIsRet := eTerm.(*ssa.Return)
+	if tIsRet && eIsRet && !tDirect && !eDirect {
+		if len(fr.defers) != 0 || len(tRet.Results) != len(eRet.Results) {
+			return nil, nil, false, false
+		}
+		vals := make(VTuple, len(tRet.Results))
+		for i := range vals {
+			mv, okm := merge(ex.val(fr, tRet.Results[i]), ex.val(fr, eRet.Results[i]))
+			if !okm {
+				return nil, nil, false, false
+			}
+			vals[i] = mv
+		}
+		switch len(vals) {
+		case 0:
+			return nil, nil, true, true
+		case 1:
+			return nil, vals[0], true, true
+		}
+		return nil, vals, true, true
+	}
+	if tIsRet || eIsRet {
+		return nil, nil, false, false
+	}
+	// joins
+	var tFrom, eFrom *ssa.BasicBlock
+	var tJoin, eJoin *ssa.BasicBlock
+	if tDirect {
+		tJoin, tFrom = tb, ifBlk
+	} else {
+		tJoin, tFrom = tb.Succs[0], tb
+	}
+	if eDirect {
+		eJoin, eFrom = eb, ifBlk
+	} else {
+		eJoin, eFrom = eb.Succs[0], eb
+	}
+	if tJoin != eJoin {
+		return nil, nil, false, false
+	}
+	// a direct edge must really be an edge into the join (triangle), and the join must have exactly these two preds
+	if len(tJoin.Preds) != 2 {
+		return nil, nil, false, false
+	}
+	type bind struct {
+		p *ssa.Phi
+		v Value
+	}
+	var binds []bind
+	for _, in := range tJoin.Instrs {
+		p, isPhi := in.(*ssa.Phi)
+		if !isPhi {
+			break
+		}
+		var tv, ev Value
+		for i, pred := range tJoin.Preds {
+			if pred == tFrom {
+				tv = ex.val(fr, p.Edges[i])
+			}
+			if pred == eFrom {
+				ev = ex.val(fr, p.Edges[i])
+			}
+		}
+		if tv == nil || ev == nil {
+			return nil, nil, false, false
+		}
+		mv, okm := merge(tv, ev)
+		if !okm {
+			return nil, nil, false, false
+		}
+		binds = append(binds, bind{p, mv})
+	}
+	for _, b := range binds {
+		fr.env[b.p] = b.v
+	}
+	ex.Merged++
+	return tJoin, nil, false, true
+}
+
+func isScalar(v Value) bool {
+	switch v.(type) {
+	case VInt, VBool:
+		return true
+	}
+	return false
 }
 
 // callLenient executes a package initialiser: straight-line, every instruction that cannot be evaluated
@@ -1335,6 +1526,10 @@ func (ex *Exec) binop(op token.Token, a, b Value, opType, resType types.Type) Va
 			if !ex.decide(Not(Eq(y.T, IntC(0)))) {
 				panic(goPanic{"integer divide by zero"})
 			}
+			if ex.cfg.Abstract && !y.T.Const {
+				// abstract mode: the quotient is an uninterpreted function of its operands
+				return VInt{ex.wrap(ex.nameT(ex.ufApp("absidiv", false, ex.nameT(x.T), ex.nameT(y.T))), bt, false)}
+			}
 			return VInt{ex.wrap(ex.truncDivX(x.T, y.T), bt, true)}
 		case token.REM:
 			if !ex.decide(Not(Eq(y.T, IntC(0)))) {
@@ -1486,6 +1681,16 @@ func (ex *Exec) strEq(x, y VStr) Term {
 		if x.Hexed != y.Hexed {
 			panic(unsupported{"equality between hex text and raw atom"})
 		}
+	}
+	if x.IsHexOf && y.IsHexOf {
+		if len(x.HexOf) != len(y.HexOf) {
+			return BoolC(false)
+		}
+		r := BoolC(true)
+		for i := range x.HexOf {
+			r = And(r, Eq(x.HexOf[i], y.HexOf[i]))
+		}
+		return r
 	}
 	if x.Atom == nil && y.Atom == nil && (x.Conc == nil || y.Conc == nil) {
 		return ex.bytesEq(x, y)
@@ -1709,6 +1914,9 @@ func (ex *Exec) builtin(fr *frame, b *ssa.Builtin, cc *ssa.CallCommon, args []Va
 			}
 			if x.Atom != nil && x.N > 0 {
 				return VInt{IntC(int64(x.N))}
+			}
+			if x.IsHexOf {
+				return VInt{IntC(int64(2 * len(x.HexOf)))}
 			}
 		case VMap:
 			if x.M == nil {
